@@ -215,3 +215,43 @@ Proof.
   - destruct (run_sched_H c [] sched _ Hk Hv (InvH_0 c progs W)) as [_ [_ [_ P]]]. exact P.
 Qed.
 
+
+(* ================================================================= what a (concurrent) snapshot can contain *)
+Lemma next_entry_sound m cur : forall best k id,
+  (forall kb ib, best = Some (kb, ib) -> above cur kb = true) ->
+  next_entry m cur best = Some (k, id) -> (In (k, id) m \/ best = Some (k, id)) /\ above cur k = true.
+Proof.
+  induction m as [|[k0 i0] m IH]; intros best k id Hb H; simpl in H.
+  - subst. split; [right; reflexivity | eapply Hb; reflexivity].
+  - destruct (above cur k0) eqn:Ab.
+    + assert (Hn : forall kb' ib', Some (k0, i0) = Some (kb', ib') -> above cur kb' = true) by (intros kb' ib' E; injection E as <- <-; exact Ab).
+      destruct best as [[kb ib]|].
+      * destruct (N.ltb k0 kb).
+        -- destruct (IH _ _ _ Hn H) as [[Hin|E] A]; [split; [left; right; exact Hin | exact A]|].
+           inversion E; subst. split; [left; left; reflexivity | exact A].
+        -- destruct (IH _ _ _ Hb H) as [[Hin|E] A]; split; auto. left; right; exact Hin.
+      * destruct (IH _ _ _ Hn H) as [[Hin|E] A]; [split; [left; right; exact Hin | exact A]|].
+        inversion E; subst. split; [left; left; reflexivity | exact A].
+    + destruct (IH _ _ _ Hb H) as [[Hin|E] A]; split; auto. left; right; exact Hin.
+Qed.
+
+(* every step of an AppendSnapshot walk (concurrent with anything): the entry it appends is the CURRENT tuple and value of a
+   series that is in the series map at that very moment, its key lies strictly above every key visited before (so no series
+   is reported twice), and nothing else is ever appended *)
+Lemma snapshot_step_sound mode s ss a cur acc ss' a' :
+  a_pc a = SSn2 cur acc -> xstep_aux mode s ss a = Some (ss', a') ->
+  ss' = ss /\
+  ((exists k id h, In (k, id) (smap s) /\ above cur k = true /\ get_handle s id = Some h /\
+                   a_pc a' = SSn2 (Some k) ((h_tuple h, h_val h) :: acc)) \/
+   (exists k id, In (k, id) (smap s) /\ get_handle s id = None /\ a_pc a' = SSn2 (Some k) acc) \/
+   (a_pc a' = SIdle /\ a_snaps a' = rev acc :: a_snaps a)).
+Proof.
+  intros Epc H. unfold xstep_aux in H. rewrite Epc in H.
+  destruct (next_entry (smap s) cur None) as [[k id]|] eqn:NE.
+  - assert (Hnone : forall kb ib, @None (N * nat) = Some (kb, ib) -> above cur kb = true) by (intros ? ? E; discriminate).
+    destruct (next_entry_sound _ _ _ _ _ Hnone NE) as [[Hin|E] A]; [|discriminate].
+    inversion H; subst. split; [reflexivity|]. destruct (get_handle s id) as [h|] eqn:G.
+    + left. exists k, id, h. simpl. auto.
+    + right; left. exists k, id. simpl. auto.
+  - inversion H; subst. split; [reflexivity|]. right; right. simpl. auto.
+Qed.
